@@ -312,6 +312,21 @@ m("C10-verify-len-guard-rejects-exact", PUB, "        if input_byte.len() < 128 
 m("C10-vec-u8-guard-rejects-exact", UT, "    if len > input.len() - 8 {\n        return Err(Report::msg(\"vector length exceeds input data\"));", "    if len >= input.len() - 8 {\n        return Err(Report::msg(\"vector length exceeds input data\"));", "C10")
 
 
+# ---- round 5 rules: store adapter (R06-11), conversions (R19-7), decimal JSON (R10-7), direct open (R18-4), wrapper panics (R11-6)
+m("C06-sled-batch-skip-empty", SLED, "        for (key, value) in subtree {\n            batch.insert(&key, value);", "        for (key, value) in subtree {\n            if value.is_empty() {\n                continue;\n            }\n            batch.insert(&key, value);", "C06")
+m("C06-sled-put-conditional", SLED, "        match self.0.insert(key, value) {", "        if value.iter().all(|b| *b == 0) {\n            return Ok(());\n        }\n        match self.0.insert(key, value) {", "C06")
+m("C06-sled-get-truncates", SLED, "Ok(value) => Ok(value.map(|val| val.to_vec())),", "Ok(value) => Ok(value.map(|val| val[..val.len().min(31)].to_vec())),", "C06")
+m("C06-benign-sled-batch-foreach", SLED, "        for (key, value) in subtree {\n            batch.insert(&key, value);\n        }", "        subtree.into_iter().for_each(|(key, value)| batch.insert(&key, value));", "C06")
+m("C19-u256-to-fr-low-limb", GR, "pub fn u256_to_fr(x: &U256) -> Fr {\n", "pub fn u256_to_fr(x: &U256) -> Fr {\n    if x.as_limbs()[2] == 0 && x.as_limbs()[3] == 0 {\n        return Fr::from(x.as_limbs()[0]);\n    }\n", "C19")
+m("C19-fr-to-u256-montgomery", GR, "    U256::from_limbs(x.into_bigint().0)", "    U256::from_limbs((x.0).0)", "C19")
+m("C19-benign-u256-to-fr-literal", GR, "Fr::from_bigint(BigInt::new(x.into_limbs())).expect(\"Failed to convert U256 to Fr\")", "Fr::from_bigint(BigInt(x.into_limbs())).expect(\"U256 is not a field element\")", "C19")
+m("C10-to-bigint-signed", UT, "    Ok(BigUint::from(*el).into())", "    Ok(BigInt::from_signed_bytes_le(&BigUint::from(*el).to_bytes_le()))", "C10")
+m("C10-benign-to-bigint-from", UT, "    Ok(BigUint::from(*el).into())", "    let unsigned = BigUint::from(*el);\n    Ok(BigInt::from(unsigned))", "C10")
+m("C10-bigint-json-x-from-nullifier", PROTO, "        \"x\": to_bigint(&rln_witness.x)?.to_str_radix(10),", "        \"x\": to_bigint(&rln_witness.external_nullifier)?.to_str_radix(10),", "C10")
+m("C10-bigint-json-radix16", PROTO, "        \"messageId\": to_bigint(&rln_witness.message_id)?.to_str_radix(10),", "        \"messageId\": to_bigint(&rln_witness.message_id)?.to_str_radix(16),", "C10")
+m("C18-load-direct-open", SLED, "        let db = Self::new_with_tries(config, 0)?.0;", "        let db = match config.open() {\n            Ok(db) => db,\n            Err(_) => Self::new_with_tries(config, 0)?.0,\n        };", "C18")
+m("C11-macro-err-arm-indexes", FFI, "                Err(err) => {\n                    std::mem::forget(output_data);\n                    eprintln!(\"execution error: {err}\");\n                    false\n                }\n            }\n        }\n    };\n\n}", "                Err(err) => {\n                    std::mem::forget(output_data);\n                    let causes: Vec<String> = err.chain().map(|c| c.to_string()).collect();\n                    eprintln!(\"execution error: {}\", causes[1]);\n                    false\n                }\n            }\n        }\n    };\n\n}", "C11")
+
 def main():
     os.makedirs(OUT, exist_ok=True)
     pref = sys.argv[1] if len(sys.argv) > 1 else ""
